@@ -19,7 +19,7 @@ from tradingenv.events import EventNBBO
 from tradingenv.contracts import Cash, Rate
 
 PROP = "C06"
-PLAN = {"quick": 8000, "thorough": 800000}
+PLAN = {"quick": 16000, "thorough": 800000}
 TIMEOUT = 20
 CHUNK = 400
 SEC_YEAR = 365 * 24 * 60 * 60
